@@ -2,7 +2,7 @@
    recursive-descent parser, carried by one predicate [good] (JsonProofsBase). *)
 From Coq Require Import ZArith List Bool Lia.
 Require Import ZifyBool.
-From Json Require Import JsonSpec JsonModel JsonProofsBase.
+From Json Require Import JsonSpec JsonModel JsonProofsBase JsonProofsHex.
 Import ListNotations.
 Local Open Scope Z_scope.
 
@@ -57,6 +57,10 @@ Proof.
       * cbn. apply moved_refl.
 Qed.
 
+Lemma hex_quad_good l r :
+  good l r (fun a => moved l r l (snd a) /\ (length (snd a) + 4 = length r)%nat) (hex_quad l r).
+Proof. rewrite hex_quad_eq. apply hexn_good. Qed.
+
 (* ---------- the string token ---------- *)
 Definition str_post (l : Z) (r : list Z) (a : Z * list Z * list Z) : Prop :=
   moved l r (fst (fst a)) (snd (fst a)) /\ (length (snd (fst a)) < length r)%nat.
@@ -105,7 +109,7 @@ Proof.
         { (* \u *)
           eqb_subst. specialize (M2 ltac:(lia) ltac:(lia)).
           eapply good_bind.
-          { eapply good_shift; [exact M2|apply hexn_good|]. intros a Ha. exact Ha. }
+          { eapply good_shift; [exact M2|apply hex_quad_good|]. intros a Ha. exact Ha. }
           intros [w1 r3] [M3 L3]. cbn [fst snd] in *.
           assert (M3' : moved l (92 :: 117 :: t2) l r3) by (eapply moved_trans; [exact M2|exact M3]).
           split_if.
@@ -121,7 +125,7 @@ Proof.
                 { eapply moved_trans; [exact M3'|].
                   eapply moved_trans; apply moved_plain; lia. }
                 eapply good_bind.
-                { eapply good_shift; [exact M5|apply hexn_good|]. intros a Ha. exact Ha. }
+                { eapply good_shift; [exact M5|apply hex_quad_good|]. intros a Ha. exact Ha. }
                 intros [w2 r6] [M6 L6]. cbn [fst snd length] in *.
                 split_if; [cbn; exact M3'|].
                 apply STEP; [eapply moved_trans; eauto|lia].
